@@ -275,7 +275,7 @@ func (ip *Inode) bmap(atxn *alloctxn.AllocTxn, bn uint64) (common.Bnum, bool) {
 			newBlkno, newRoot := ip.indbmap(atxn, ip.blks[DINDIRECT], 2, off)
 			blkno = newBlkno
 			root = newRoot
-			alloc = root != ip.blks[INDIRECT]
+			alloc = root != ip.blks[DINDIRECT]
 			if alloc {
 				ip.blks[DINDIRECT] = root
 			}
